@@ -781,4 +781,9 @@ def run(P, R, tier):
     # a rule's /n is the number written: it cannot wrap around into a small one
     _f13 = c13.scope(P)
     c13.accumulators_bounded(P, R, list(_f13) if not isinstance(_f13, dict) else list(_f13.values()), 'C11.ARITH.1')
+    # shared (round 9): the texts the criteria are matched against arrive whole, and a wildcard address means its block
+    from ..report import Remap as _Remap
+    from . import c06 as _c06, c13 as _c13
+    _c06.field_capacity(P, _Remap(R, {'C06.BND.2': 'C11.BND.4'}))
+    _c13.mask_forms(P, R, _c13.scope(P), 'C11.TAB.10')
     return EXPLANATION, ASSUMPTIONS
